@@ -1,12 +1,12 @@
 #!/verif/.venv/bin/python
-# Replay of a counterexample against the real code in /tmp/wt_interp/src (exit 1 = violation reproduced).
+# Replay of a counterexample against the real code in /repo/src (exit 1 = violation reproduced).
 import os, sys
 os.environ.setdefault("NUMBA_DISABLE_JIT", "1")
-sys.path.insert(0, '/tmp/wt_interp' + "/src"); sys.path.insert(0, '/verif')
+sys.path.insert(0, '/repo' + "/src"); sys.path.insert(0, '/verif')
 from fractions import Fraction
 import harness.C34 as H
 try:
-    r = H.replay_reinterp({'x0': Fraction(1, 1000000000), 'x1': Fraction(31255020698, 988370537213857), 'x2': Fraction(1, 1), 't0': Fraction(3, 500000000)}, **{'mode': False, 'n': 3, 'deg': 1, 'tnames': ['t0', 'x1', 'x2'], 'm': 1})
+    r = H.replay_reinterp({'x0': Fraction(1, 1000000000), 'x1': Fraction(31255020698, 988370537213857), 'x2': Fraction(1, 1), 't0': Fraction(3, 500000000)}, **{'mode': True, 'n': 3, 'deg': 1, 'tnames': ['t0', 'x1', 'x2'], 'm': 1})
 except Exception:
     import traceback; traceback.print_exc(); sys.exit(2)
 print(r)
